@@ -124,7 +124,12 @@ func runC25(c *Ctx) {
 		c.iterMustPass("G-quorum", "ConfirmContextCheck|VoteContextCheck per vote", cc, "VoteContextCheck", vcc, true)
 		for _, call := range ssau.CallsIn(cc, vcc) {
 			hs := loopHeaders(call.Block())
-			c.R.Check("G-quorum", "ConfirmContextCheck|membership loop over confirm.Votes", len(hs) == 1 && loopRangesOver(hs[0], fieldIs("Confirm", "Votes")), c.posOf(call), "the membership loop ranges over confirm.Votes")
+			okDom := len(hs) == 1 && loopRangesOver(hs[0], fieldIs("Confirm", "Votes"))
+			c.R.Check("G-quorum", "ConfirmContextCheck|membership loop over confirm.Votes", okDom, c.posOf(call), "the membership loop ranges over confirm.Votes")
+			if okDom {
+				bad := c.earlyLoopExits(cc, hs[0])
+				c.R.Check("G-quorum", "ConfirmContextCheck|membership loop runs to exhaustion", len(bad) == 0, c.posOf(call), fmt.Sprintf("every vote that was counted is checked for membership: the loop is left only when exhausted or with an error (early exits: %v)", bad))
+			}
 		}
 		pcc := callPred(R{"blockchain", "", "ProposalContextCheck"})
 		c.G1s("G-quorum", "ConfirmContextCheck|ProposalContextCheck", cc, "ProposalContextCheck", pcc, G1Opt{})
@@ -141,6 +146,18 @@ func runC25(c *Ctx) {
 	if cs != nil {
 		c.G1s("G-sanity", "ConfirmSanityCheck|ProposalSanityCheck", cs, "ProposalSanityCheck", callPred(R{"blockchain", "", "ProposalSanityCheck"}), G1Opt{})
 		c.iterMustPass("G-sanity", "ConfirmSanityCheck|VoteSanityCheck per vote", cs, "VoteSanityCheck", callPred(R{"blockchain", "", "VoteSanityCheck"}), true)
+		for _, vc := range callsVia(cs, callPred(R{"blockchain", "", "VoteSanityCheck"})) {
+			vc := vc
+			vc.with(func() {
+				hs := loopHeaders(vc.call.Block())
+				okDom := len(hs) >= 1 && loopRangesOver(hs[0], fieldIs("Confirm", "Votes"))
+				c.R.Check("G-sanity", "ConfirmSanityCheck|signature loop over confirm.Votes", okDom, c.posOf(vc.call), "the loop that verifies the vote signatures ranges over confirm.Votes itself (every vote, each through its own element)")
+				if okDom {
+					bad := c.earlyLoopExits(vc.call.Parent(), hs[0])
+					c.R.Check("G-sanity", "ConfirmSanityCheck|signature loop runs to exhaustion", len(bad) == 0, c.posOf(vc.call), fmt.Sprintf("the loop is left only when every vote was verified or with an error (early exits: %v)", bad))
+				}
+			})
+		}
 		c.iterGuard("G-sanity", "ConfirmSanityCheck|reject votes rejected", cs, "vote.Accept", func(i *ssa.If) (bool, bool) {
 			x, neg := ssau.StripNot(i.Cond)
 			if ssau.IsFieldOf(ssau.Unwrap(x), "DPOSProposalVote", "Accept") {
